@@ -5,6 +5,7 @@ login; the answer is the one a cache-free recomputation would give.
 is the one of `C03/Model.lean`; invariants and their preservation are in `C04/Lemmas.lean`.)
 -/
 import LimnoriaModel.C04.Lemmas
+import LimnoriaModel.C04.Glob
 namespace C04
 open Py C03
 
@@ -153,21 +154,33 @@ theorem recognise_secure (db : Db) (now : Int) (h : Str) (u : User)
   | missing => rw [hl] at hr; cases hr
   | duplicate => rw [hl] at hr; cases hr
 
-/-- **No literal overlap after an accepted `setUser`**: when `setUser(u)` succeeds, no mask of
-`u` matches, as a pattern, a mask of another stored user read as a string, and no other user's
-`checkHostmask` accepts a mask of `u` read as a hostmask (pattern match, or a live login equal
-to it up to IRC case).  This is what the code checks — *not* that the masks have no common
+/-- **No literal overlap after an accepted `setUser`**: when `setUser(u)` succeeds, the record `w`
+it stores under `u.id` (the stored object itself when the caller modified it in place) has no
+mask that matches, as a pattern, a mask of another stored user read as a string, and no other
+user's `checkHostmask` accepts a mask of `w` read as a hostmask (pattern match, or a live login
+equal to it up to IRC case).  This is what the code checks — *not* that the masks have no common
 instance: see `semantic_overlap_accepted`. -/
-theorem setUser_no_literal_overlap (st : St) (u : User) (h : (setUser st u).2 = .ok ()) :
-    ∀ hm ∈ u.hostmasks, ∀ v ∈ (setUser st u).1.db.users, v.id ≠ u.id →
-      (∀ o ∈ v.hostmasks, glob hm o = false) ∧
-      maskHitsUser v (setUser st u).1.db.timeout (setUser st u).1.now hm = false := by
+theorem setUser_no_literal_overlap (st : St) (u : User) (live : Bool)
+    (h : (setUser st u live).2 = .ok ()) :
+    ∃ w ∈ (setUser st u live).1.db.users, w.id = u.id ∧
+      ∀ hm ∈ w.hostmasks, ∀ v ∈ (setUser st u live).1.db.users, v.id ≠ u.id →
+        (∀ o ∈ v.hostmasks, glob hm o = false) ∧
+        maskHitsUser v (setUser st u live).1.db.timeout (setUser st u live).1.now hm = false := by
   obtain ⟨r, hr, hov⟩ := setUser_ok_spec h
+  have hwid : (finalRecord r u live).id = u.id := by
+    unfold finalRecord
+    cases live
+    · rfl
+    · simp only [if_true]
+      cases hg : r.db.getUserById u.id with
+      | none => rfl
+      | some w => exact (getUserById_spec hg).2
   rw [hr]
+  refine ⟨finalRecord r u live, mem_putUser_self _ _, hwid, ?_⟩
   intro hm hhm v hv hne
   have hv' : v ∈ r.db.users := by
     rcases C03.mem_putUser hv with e | e
-    · rw [e] at hne; exact absurd rfl hne
+    · rw [e, hwid] at hne; exact absurd rfl hne
     · exact e
   unfold overlaps at hov
   rw [List.any_eq_false] at hov
@@ -175,7 +188,7 @@ theorem setUser_no_literal_overlap (st : St) (u : User) (h : (setUser st u).2 = 
   simp only [Bool.not_eq_true] at h1
   rw [List.any_eq_false] at h1
   have h2 := h1 v hv'
-  have hne' : (v.id != u.id) = true := by simpa using hne
+  have hne' : (v.id != (finalRecord r u live).id) = true := by rw [hwid]; simpa using hne
   simp only [hne', Bool.true_and, Bool.not_eq_true, Bool.or_eq_false_iff] at h2
   refine ⟨?_, h2.1⟩
   have := h2.2
@@ -201,5 +214,20 @@ theorem semantic_overlap_accepted :
     (step (run {} overlapHistory) (.lookup abHost)).2 = .err .value ∧
     (step (run {} overlapHistory) (.lookup abHost)).1.db.users.map (fun u => u.hostmasks) = [[], []] := by
   decide
+
+/-- **The tolerant step of the model is never taken**: in every reachable state each cached
+hostmask is listed in the reverse entry of its id, so `invalidateCache(hostmask=h)` cannot raise
+KeyError at `self._hostmaskCache[id].remove(h)` (where the model, unlike the code, would just go
+on). -/
+theorem revOK_reachable {st : St} (hr : Reachable st) : RevOK st.hc := by
+  obtain ⟨t, ops, e⟩ := hr
+  rw [e]; exact revOK_run revOK_empty ops
+
+/-! ## the glob matcher (`C04/Glob.lean`)
+* `glob_iff_matches : glob p h = true ↔ Matches p h` — the matcher computes the declarative
+  relation (`*` any run without LF, `?` one character, rfc1459 pairs and ASCII case collapsed,
+  anchored at both ends, one trailing LF tolerated);
+* `glob_case : glob (toLower p) (toLower h) = glob p h` — matching is IRC-case-insensitive;
+* `rfc1459_table_classes` — the obligation on the extracted case table both rest on. -/
 
 end C04
